@@ -57,6 +57,89 @@ def build(env, per_cell, with_par=True):
     return cw
 
 
+def build_history_probes(env, reps):
+    """Calls whose result must be a function of their arguments alone, issued several times in a
+    row and with near-colliding neighbours (same prefix / same length / same RNG bytes), so that a
+    cache, a 'previous value' memo or a global counter has something to bite on."""
+    g = gen.G(env.rnd)
+    rnd = env.rnd
+    cw = cl.CaseW()
+    n = 0
+    for kem in gen.KEMS:
+        nsk = gen.nsk(kem)
+        for r in range(reps):
+            kdf, aead = rnd.choice(gen.KDFS), rnd.choice(gen.ALL_AEADS)
+            s = cw.session(kem, kdf, aead, sid="hp%d" % n)
+            n += 1
+            gen.add_keys(s, g, kem, "kR")
+            gen.add_keys(s, g, kem, "kS")
+            rng = g.rbytes(nsk)
+            ikm = g.rbytes(rnd.choice([nsk, 7, 100]))
+            grp = [0]
+
+            def rep(op, times=3, **a):
+                grp[0] += 1
+                for _ in range(times):
+                    s.call(op, rep=grp[0], **a)
+
+            rep("gen_keypair", rng=rng)
+            rep("derive_keypair", ikm=ikm)
+            rep("gen_keypair", rng=rng)  # again after other calls
+            rep("encap", pkr="$kR.pk", rng=rng)
+            rep("encap", pkr="$kR.pk", sks="$kS.sk", pks="$kS.pk", rng=rng)
+            rep("sk_to_pk", sk="$kR.sk")
+            # near-colliding info / psk / psk_id strings in consecutive setups: same 64/128-byte prefix
+            L = rnd.choice([64, 65, 100, 128, 300])
+            prefix = g.raw(L).hex()
+            infos = [prefix, prefix + "00", prefix + "01", prefix + g.raw(8).hex(), prefix, prefix[:-2] + "ff", prefix + "00"]
+            mode = rnd.choice(gen.MODES)
+            pa = dict(psk=g.rbytes(40), pskid=g.rbytes(9)) if mode in (1, 3) else {}
+            sa = dict(sks="$kS.sk", pks="$kS.pk", **pa) if mode in (2, 3) else dict(pa)
+            ra = dict(pks="$kS.pk", **pa) if mode in (2, 3) else dict(pa)
+            for i, info in enumerate(infos):
+                # identical (info) pairs get the same group: results must be identical
+                key = "i%s" % infos.index(info)
+                s.call("setup_s", mode=mode, pkr="$kR.pk", info=info, rng=rng, out="P%d" % i, rep="s" + key, **sa)
+                s.call("export", ctx="P%d" % i, exctx="aa", len=32, rep="e" + key)
+                s.call("setup_r", mode=mode, skr="$kR.sk", enc="$P%d.enc" % i, info=info, out="Q%d" % i, rep="r" + key, **ra)
+                s.call("export", ctx="Q%d" % i, exctx="aa", len=32, rep="e" + key)
+            if mode in (1, 3):
+                pid = g.raw(L).hex()
+                for i, pskid in enumerate([pid, pid + "00", pid, pid[:-2] + "01", pid]):
+                    a2 = dict(sa, pskid=pskid)
+                    s.call("setup_s", mode=mode, pkr="$kR.pk", info="-", rng=rng, out="K%d" % i, rep="k%s" % [pid, pid + "00", pid[:-2] + "01"].index(pskid), **a2)
+                    s.call("export", ctx="K%d" % i, exctx="-", len=32, rep="ke%s" % [pid, pid + "00", pid[:-2] + "01"].index(pskid))
+            # exporter contexts sharing long prefixes, on one context
+            for ex in (prefix, prefix + "00", prefix, prefix[:-2] + "ff", prefix):
+                s.call("export", ctx="P0", exctx=ex, len=48, rep="x%s" % [prefix, prefix + "00", prefix[:-2] + "ff"].index(ex))
+    return cw
+
+
+def check_repeats(env, res, label):
+    """within one execution: calls with identical arguments (same rep group) must agree"""
+    bad = 0
+    for s in res.sessions:
+        groups = {}
+        for op in s.ops:
+            if "rep" in op.args and op.ret is not None:
+                key = (op.op, op.args["rep"])
+                val = tuple(sorted((k, v) for k, v in op.ret.items() if k not in IGNORE))
+                env.count("evaluations", 1)
+                if key in groups and groups[key][0] != val:
+                    first = groups[key][1]
+                    a, b = dict(groups[key][0]), dict(val)
+                    fields = sorted(f for f in set(a) | set(b) if a.get(f) != b.get(f))
+                    env.violation("C18:history_dependent:%s" % op.op,
+                                  "%s with identical arguments returned a different result than an earlier identical call in the same execution (%s; fields %s; first call %s, this call %s)" % (
+                                      op.op, label, fields, first, op.id), case_text=s.case_text(op.id), workload="history")
+                    bad += 1
+                    break
+                groups.setdefault(key, (val, op.id))
+        if not bad:
+            env.seen((s.sid, "repeats", label))
+    return bad
+
+
 def transcript(sess):
     out = []
     for op in sess.ops:
@@ -128,11 +211,31 @@ def tsan_reports(text):
 
 
 def run(env):
+    # Send + Sync first: if a public type lost it, the driver (which moves and shares contexts across
+    # threads) cannot even be built, and that must be reported as what it is
+    sendsync(env)
+    if env.violations:
+        return
     per = env.pick(1, 4)
     text = build(env, per).text()
+    htext = build_history_probes(env, env.pick(6, 40)).text()
+    text += htext
     base = env.drive("seq", text)
     env.require_complete(base, "seq")
     check_par(env, base)
+    check_repeats(env, base, "sequential, alloc build")
+    # the same under the crate's `std` feature (std-only code paths), sequential + permuted + interleaved
+    sbase = env.drive("seq-std", text, build="checked-std")
+    env.require_complete(sbase, "seq-std")
+    check_repeats(env, sbase, "sequential, std build")
+    std_placements = {}
+    compare(env, "std-build-vs-alloc-build", base, sbase, std_placements)
+    for sc in ("perm:%d" % (env.seed + 3), "interleave:%d:8" % (env.seed + 3), "threads:4"):
+        r2 = env.drive("placed-std", text, build="checked-std", sched=sc)
+        env.require_complete(r2, "std " + sc)
+        compare(env, "std+" + sc, sbase, r2, std_placements)
+        check_repeats(env, r2, "std build, " + sc)
+    env.extra_cov["std_build_placements"] = std_placements
     placements = {}
     traces = {}
     seeds = [env.seed * 7 + k for k in range(env.pick(1, 4))]
@@ -146,6 +249,7 @@ def run(env):
         env.require_complete(res, sc)
         compare(env, sc, base, res, placements)
         check_par(env, res)
+        check_repeats(env, res, sc)
         nthreads, switches, placement = sched_stats(res.sched_path)
         traces[sc] = {"threads_used": nthreads, "session_switches": switches, "ops": len(placement)}
         orders.add(tuple(sorted(placement.items())).__hash__())
@@ -185,8 +289,6 @@ def run(env):
             compare(env, "tsan+" + sc, base if not env.quick() else _subset(base, res), res, placements)
         traces["tsan+" + sc] = dict(zip(("threads_used", "session_switches"), sched_stats(res.sched_path)[:2]))
     env.extra_cov["tsan_reports"] = tsan_total
-    # ---- Send + Sync (compile-time observation)
-    sendsync(env)
     if not env.quick():
         miri_seeds(env)
 
